@@ -1,6 +1,7 @@
 pub mod isolate;
 pub mod kf;
 pub mod runner;
+pub mod scenario;
 pub mod engine;
 pub mod sql;
 pub mod sqlite;
